@@ -1,3 +1,4 @@
+import PgsVerif.Proofs.CamelCut
 import PgsVerif.Proofs.NameSplit
 /-!
 # C15 — name splitting is lossless and segments identifiers as documented
@@ -165,5 +166,46 @@ private def dgA (n : Nat) : Bool := 48 ≤ n && n ≤ 57
 example : split upA dgA [102,111,111,66,65,82,57,120] = [[102,111,111],[66,65,82],[57],[120]] := by decide
 example : split upA dgA [95,102,111,111,95,98,97,114] = [[95,102,111,111],[98,97,114]] := by decide
 example : specSplit upA dgA [102,111,111,66,65,82,57,120] = [[102,111,111],[66,65,82],[57],[120]] := by decide
+
+end Pgs.C15
+
+/-! ### the segmentation is the documented one -/
+namespace Pgs.C15
+
+/-- **C15 (segments)**: for every name and every classification in which no rune is both an
+    upper/title-case letter and a digit, the parts are exactly the documented segmentation: the dot
+    segments, else the underscore segments with the leading underscore kept on the first word, else
+    the camel-case words cut at the declared boundaries (upper after non-upper, digit after
+    non-digit, non-digit after digit, the last capital of an acronym) — a leading underscore
+    shielding the position after it.  The scanner's retroactive acronym rule is proved equal to the
+    look-ahead clause of `boundary` by an invariant over the scanner state (Proofs/CamelCut). -/
+theorem C15_segments (up dg : Nat → Bool) (rs : Runes) (hcls : classOK up dg rs = true) :
+    split up dg rs = specSplit up dg rs := by
+  unfold split specSplit
+  by_cases h0 : rs = []
+  · simp [h0]
+  rw [if_neg h0, if_neg h0]
+  by_cases hd : rs.contains dot = true
+  · rw [if_pos hd, if_pos hd]
+  rw [if_neg hd, if_neg hd]
+  by_cases hu : (rs.drop 1).contains underscore = true
+  · rw [if_pos hu, if_pos hu]
+  rw [if_neg hu, if_neg hu]
+  exact camel_eq_spec rs h0 hcls (by simpa using hu)
+
+/-- hence Φ's segment clause never fires on the model -/
+theorem C15_segments_judge (up dg : Nat → Bool) (rs : Runes) :
+    (classOK up dg rs && (split up dg rs != specSplit up dg rs)) = false := by
+  cases h : classOK up dg rs with
+  | false => rfl
+  | true => simp [C15_segments up dg rs h]
+
+/-! non-vacuity: an acronym followed by a word, digits, and a shielded leading underscore
+    (65 'A' … 90 'Z' upper, 48 … 57 digits) -/
+example : specCamel (fun r => decide (65 ≤ r ∧ r ≤ 90)) (fun r => decide (48 ≤ r ∧ r ≤ 57))
+    [72, 84, 84, 80, 83, 101, 114, 118, 101, 114, 50, 120] =     -- "HTTPServer2x"
+    [[72, 84, 84, 80], [83, 101, 114, 118, 101, 114], [50], [120]] := by decide
+example : camel (fun r => decide (65 ≤ r ∧ r ≤ 90)) (fun r => decide (48 ≤ r ∧ r ≤ 57))
+    [95, 70, 111, 111, 66, 65, 82] = [[95, 70, 111, 111], [66, 65, 82]] := by decide   -- "_FooBAR"
 
 end Pgs.C15
